@@ -8,6 +8,8 @@ CONSTANTS
   MaxEnv = 1
   ForeignAt = "ref"
   RenderFails = FALSE
+  CacheMisses = TRUE
+  VerBumps = FALSE
   FailKinds = {"fnerror2"}
 VIEW view
 ACTION_CONSTRAINT Emit
